@@ -1,6 +1,6 @@
 import RedoModel.Lemmas.DepsFuel1
 import RedoModel.Lemmas.DepsOwned2
-import RedoModel.Props.C05
+import RedoModel.Props.C05a
 /-!
 # C12 — cycles are reported (part 2): the refusal, and how it travels up
 
